@@ -6,6 +6,7 @@ toolchain go1.23.5
 
 require (
 	a0quiet v0.0.0
+	github.com/google/go-configfs-tsm v0.3.2
 	github.com/google/go-eventlog v0.0.2-0.20241213203620-f921bdc3aeb0
 	github.com/google/go-tdx-guest v0.0.0
 	github.com/google/logger v1.1.1
@@ -14,7 +15,6 @@ require (
 )
 
 require (
-	github.com/google/go-configfs-tsm v0.3.2 // indirect
 	github.com/google/go-tpm v0.9.0 // indirect
 	go.uber.org/multierr v1.11.0 // indirect
 	golang.org/x/crypto v0.17.0 // indirect
